@@ -415,3 +415,125 @@ Proof.
     destruct (Nat.ltb (length nv) (b - a)) eqn:E1; [reflexivity|]. apply Nat.ltb_ge in E1.
     destruct tr; [reflexivity|]. destruct Hfit as [H|H]; [lia|discriminate].
 Qed.
+
+(* ---------- bitfield_update_set: overlap is order-independent ---------- *)
+From Coq Require Import Permutation.
+
+(* success means: ANY two distinct entries address disjoint bit sets (whatever their order) *)
+Theorem bitfield_update_set_disjoint : forall w ups tr r,
+  bitfield_update_set w ups tr = Some r ->
+  forall u1 u2, In u1 ups -> In u2 ups -> u1 <> u2 ->
+  forall i, In i (idx_of (length w) u1) -> ~ In i (idx_of (length w) u2).
+Proof.
+  intros w ups tr r H u1 u2 H1 H2 Hne i Hi Hc.
+  destruct (bitfield_update_set_spec _ _ _ _ H) as (_ & _ & _ & Hp).
+  destruct (ForallOrdPairs_In Hp u1 u2 H1 H2) as [E|[R|R]]; [contradiction| |].
+  - exact (R i Hi Hc).
+  - exact (R i Hc Hi).
+Qed.
+
+(* overlap = non-empty intersection of the addressed index sets: it raises, in either order *)
+Theorem bitfield_update_set_overlap_raises : forall w ups tr u1 u2 i,
+  In u1 ups -> In u2 ups -> u1 <> u2 ->
+  In i (idx_of (length w) u1) -> In i (idx_of (length w) u2) ->
+  bitfield_update_set w ups tr = None.
+Proof.
+  intros w ups tr u1 u2 i H1 H2 Hne Hi1 Hi2.
+  destruct (bitfield_update_set w ups tr) as [r|] eqn:E; [|reflexivity]. exfalso.
+  exact (bitfield_update_set_disjoint _ _ _ _ E u1 u2 H1 H2 Hne i Hi1 Hi2).
+Qed.
+
+Lemma in_some_idx_dec n ups i :
+  {exists u, In u ups /\ In i (idx_of n u)} + {forall u, In u ups -> ~ In i (idx_of n u)}.
+Proof.
+  destruct (existsb (fun u => existsb (Nat.eqb i) (idx_of n u)) ups) eqn:E.
+  - left. apply existsb_exists in E. destruct E as (u & Hu & E). exists u. split; [exact Hu|].
+    apply existsb_eqb_In. exact E.
+  - right. intros u Hu Hin. assert (existsb (fun u => existsb (Nat.eqb i) (idx_of n u)) ups = true); [|congruence].
+    apply existsb_exists. exists u. split; [exact Hu|]. apply existsb_eqb_In. exact Hin.
+Qed.
+
+(* the result does not depend on the dictionary order *)
+Theorem bitfield_update_set_perm : forall w ups ups' tr r r',
+  Permutation ups ups' ->
+  bitfield_update_set w ups tr = Some r -> bitfield_update_set w ups' tr = Some r' -> r = r'.
+Proof.
+  intros w ups ups' tr r r' Hp H H'.
+  destruct (bitfield_update_set_spec _ _ _ _ H) as (L & V & O & _).
+  destruct (bitfield_update_set_spec _ _ _ _ H') as (L' & V' & O' & _).
+  apply bits_ext; [congruence|]. intros i _.
+  destruct (in_some_idx_dec (length w) ups i) as [(u & Hu & Hi)|Hno].
+  - destruct (In_nth _ _ 0%nat Hi) as (j & Hj & Ej).
+    destruct (V u Hu) as (_ & _ & Vu). destruct (V' u (Permutation_in _ Hp Hu)) as (_ & _ & Vu').
+    cbv zeta in Vu, Vu'. rewrite <- Ej. rewrite Vu by exact Hj. rewrite Vu' by exact Hj. reflexivity.
+  - rewrite O by exact Hno. rewrite O'; [reflexivity|].
+    intros u Hu. apply Hno. apply (Permutation_in _ (Permutation_sym Hp) Hu).
+Qed.
+
+(* no spurious error: non-empty, fitting, pairwise disjoint ranges are accepted *)
+Lemma bfus_rec_ok : forall ups w setlist tr,
+  length setlist = length w ->
+  (forall u, In u ups ->
+     idx_of (length w) u <> [] /\
+     (length (snd u) <= length (idx_of (length w) u) \/ tr = true)%nat /\
+     (forall i, In i (idx_of (length w) u) -> nth i setlist false = false)) ->
+  ForallOrdPairs (fun u1 u2 => forall i, In i (idx_of (length w) u1) -> ~ In i (idx_of (length w) u2)) ups ->
+  bfus_rec w setlist ups tr <> None.
+Proof.
+  induction ups as [|[[s e] nv] rest IH]; intros w setlist tr Hsl Hall Hp; [discriminate|].
+  cbn [bfus_rec].
+  destruct (Hall ((s, e), nv) (or_introl eq_refl)) as (Hne & Hfit & Hun).
+  unfold idx_of in Hne, Hfit, Hun. cbn [fst snd] in Hne, Hfit, Hun.
+  assert (Eov : existsb (fun b : bool => b) (pyslice setlist s e) = false).
+  { destruct (existsb (fun b : bool => b) (pyslice setlist s e)) eqn:E; [|reflexivity]. exfalso.
+    apply existsb_exists in E. destruct E as (b & Hb & Hbt). subst b.
+    rewrite (pyslice_nth setlist false) in Hb. rewrite Hsl in Hb. apply in_map_iff in Hb.
+    destruct Hb as (i & Ei & Hi). rewrite (Hun i Hi) in Ei. discriminate. }
+  rewrite Eov.
+  pose proof (bitfield_update_ok w s e nv tr Hne Hfit) as Hok.
+  destruct (bitfield_update w s e nv tr) as [w'|] eqn:Eb; [|congruence].
+  destruct (bitfield_update_spec _ _ _ _ _ _ Eb) as (_ & Hlw & _).
+  inversion Hp as [|? ? Hhead Htail]; subst.
+  apply IH.
+  - rewrite length_set_slice. lia.
+  - rewrite Hlw. intros u Hu. destruct (Hall u (or_intror Hu)) as (U1 & U2 & U3).
+    split; [exact U1|]. split; [exact U2|]. intros i Hi.
+    rewrite nth_set_slice, (U3 i Hi), Hsl. cbn [orb].
+    destruct (existsb (Nat.eqb i) (pyslice (seq 0 (length w)) s e)) eqn:E; [|reflexivity]. exfalso.
+    apply existsb_eqb_In in E. rewrite Forall_forall in Hhead.
+    apply (Hhead u Hu i); [exact E|exact Hi].
+  - rewrite Hlw. exact Htail.
+Qed.
+
+Theorem bitfield_update_set_ok : forall w ups tr,
+  (forall u, In u ups ->
+     idx_of (length w) u <> [] /\ (length (snd u) <= length (idx_of (length w) u) \/ tr = true)%nat) ->
+  ForallOrdPairs (fun u1 u2 => forall i, In i (idx_of (length w) u1) -> ~ In i (idx_of (length w) u2)) ups ->
+  bitfield_update_set w ups tr <> None.
+Proof.
+  intros w ups tr Hall Hp. unfold bitfield_update_set. apply bfus_rec_ok; [apply repeat_length| |exact Hp].
+  intros u Hu. destruct (Hall u Hu) as [U1 U2]. split; [exact U1|]. split; [exact U2|].
+  intros i _. apply nth_repeat_false.
+Qed.
+
+(* hence acceptance itself is independent of the dictionary order *)
+Theorem bitfield_update_set_order_independent : forall w ups ups' tr,
+  Permutation ups ups' -> NoDup ups ->
+  bitfield_update_set w ups tr <> None -> bitfield_update_set w ups' tr <> None.
+Proof.
+  intros w ups ups' tr Hp Hnd H.
+  destruct (bitfield_update_set w ups tr) as [r|] eqn:E; [|congruence].
+  destruct (bitfield_update_set_spec _ _ _ _ E) as (_ & V & _ & _).
+  apply bitfield_update_set_ok.
+  - intros u Hu. destruct (V u (Permutation_in _ (Permutation_sym Hp) Hu)) as (U1 & U2 & _). split; assumption.
+  - assert (Hnd' : NoDup ups') by (apply (Permutation_NoDup Hp Hnd)).
+    assert (Hsym : forall u1 u2, In u1 ups' -> In u2 ups' -> u1 <> u2 ->
+                   forall i, In i (idx_of (length w) u1) -> ~ In i (idx_of (length w) u2)).
+    { intros u1 u2 H1 H2. apply (bitfield_update_set_disjoint _ _ _ _ E);
+        apply (Permutation_in _ (Permutation_sym Hp)); assumption. }
+    clear - Hnd' Hsym. induction ups' as [|u rest IH]; [constructor|].
+    inversion Hnd' as [|? ? Hni Hnd'']; subst. constructor.
+    + apply Forall_forall. intros u2 H2. apply Hsym; [left; reflexivity|right; exact H2|].
+      intro E. subst. contradiction.
+    + apply IH; [exact Hnd''|]. intros u1 u2 H1 H2. apply Hsym; right; assumption.
+Qed.
